@@ -1,5 +1,6 @@
 """C18 -- two-component rotation and cluster alignment: the structural clauses."""
 import ast
+import copy
 from fractions import Fraction
 
 from ..tyob import *  # noqa
@@ -28,9 +29,13 @@ def run(chk):
     chk.rule("R-LAGSEARCH", "time_match: for every non-master signal both lag loops over range(steps) run (one shifts the slave window, "
                             "one the master window, the same residual otherwise; the selected lag is +i / -i accordingly) and the only "
                             "ways out of the per-signal body are the master test and a test on the selected lag alone")
+    chk.rule("R-SECTION", "the section of same_start: times are converted by s = int(start/dt), e = int(end/dt) + 1 (end = -1 stays -1; indices are "
+                          "taken as given), a section past the record is rejected (e > npts only), and the average is the mean of values[s:e]")
     chk.rule("R-KIND", "values handed to reset_values by the cluster stay arrays of unchanged length")
     rot_rules(chk)
     cluster_rules(chk)
+    section_rules(chk)
+    chk.floor("R-SECTION", 8)
     chk.floor("R-ROT", 6)
     chk.floor("R-ROT-SCAN", 8)
     chk.floor("R-LOOPVAR", 3)
@@ -122,6 +127,9 @@ def rot_rules(chk):
     for label, kw in (("arias_intensity", dict(parameter=const_av("arias_intensity"))),
                       ("attribute", dict(parameter=AV(kind=K_STR, tags=frozenset(["p:parameter"])))),
                       ("series attribute", dict(parameter=const_av("velocity"))),
+                      ("callable returning a series", dict(func=AV(kind=K_FUNC, ref=("closure", lambda I2, fr, args, kwargs, node: AV(
+                          kind=K_ARRAY, dtype="real", shape=(LinExpr("n"),), origin=frozenset(["a@user-series"]),
+                          tags=frozenset(["user-fn", "loopvar"]) | (frozenset(["arg-obj"]) if args and args[0].kind == K_OBJ else frozenset())))))),
                       ("callable", dict(func=AV(kind=K_FUNC, ref=("closure", lambda I2, fr, args, kwargs, node: AV(
                           kind=K_TOP, shape=None, tags=frozenset(["user-fn"]) | (frozenset(["arg-obj"]) if args and args[0].kind == K_OBJ else frozenset()))))))):
         def build(I, st, fi, kw=kw):
@@ -132,6 +140,20 @@ def rot_rules(chk):
             return d
         r = analyse(chk, fs.qualname, build, atoms=(R, DT, "R2"))
         cc = "%s(%s)" % (cs, label)
+        unmodelled_in(r, chk, "R-ROT-SCAN", cc)
+        # the requested angles are only wrapped into [0, 360): np.mod(angles, 360)
+        md = [e for e in r.events("lib-call", fs.qualname) if e.name in ("numpy.mod", "numpy.remainder", "numpy.fmod")]
+        for e in md[:1]:
+            okm = len(e.args) >= 2 and "linspace" in e.args[0].tags and e.args[1].has_const() and e.args[1].const == 360
+            chk.ob("R-ROT-SCAN", cc + "{wrap}", "angles are wrapped by np.mod(angles, 360)", okm,
+                   derived="mod(%s, %s)" % ("angles" if "linspace" in e.args[0].tags else e.args[0].kind, e.args[1].const if e.args[1].has_const() else "?"),
+                   loc=e.loc, stmt=e.stmt)
+        # where a series is reduced to one number it is its LAST element (the value the cumulative measure ends at)
+        for e in r.events("subscript", fs.qualname):
+            if e.index.kind == K_SCALAR and e.index.has_const() and e.base.kind in (K_ARRAY, K_TOP) and "loopvar" in e.base.tags and \
+                    ("quad:trapezoid" in e.base.tags or "user-fn" in e.base.tags):
+                chk.ob("R-ROT-SCAN", cc + "{final value: %s}" % e.stmt, "a series-valued measure is reduced to its final value [-1]", e.index.const == -1,
+                       derived="index %r" % (e.index.const,), loc=e.loc, stmt=e.stmt)
         calls = [e for e in r.events("call", fs.qualname) if e.callee == M + "combine_at_angle"]
         if not calls:
             chk.ob("R-ROT-SCAN", cc, "the scan calls combine_at_angle", False, derived="no call", loc=fs.loc(),
@@ -380,6 +402,7 @@ def lag_rules(chk, fi):
                 names = {x.id for x in ast.walk(n.value) if isinstance(x, ast.Name)}
                 if names and names <= {il.target.id}:
                     lagvars.add(n.targets[0].id)
+    lag_detail_rules(chk, fi, lp, inner, lagvars)
     # (1) exits of the per-signal body
     exits = []
 
@@ -505,3 +528,182 @@ def lag_rules(chk, fi):
         chk.ob("R-LAGSEARCH", c + "{selection}", "both loops keep the smaller residual with the same comparison", infos[0]["cmp"] == infos[1]["cmp"] and
                infos[0]["cmp"] is not None and infos[0]["cmp"][0] in ("Lt", "LtE", "Gt", "GtE"), derived="%s / %s" % (infos[0]["cmp"], infos[1]["cmp"]),
                loc=fi.loc(inner[0]))
+
+
+def section_rules(chk):
+    """time_indices / get_section_average, decided on the interpretation: symbolic start, end, dt; the option and the sentinel as literals"""
+    P = chk.P
+    q = "eqsig.fns.time_shift.time_indices"
+    c = "eqsig/fns/time_shift.py:time_indices"
+
+    def sc(name, dtype="real"):
+        return AV(kind=K_SCALAR, dtype=dtype, shape=(), sign=S_NONNEG, sym=LinExpr(name), origin=frozenset(["lit"]), tags=frozenset(["p:" + name]),
+                  note="pyscalar" if dtype == "real" else "integral")
+
+    def run_(index, end=None, oracle=None):
+        def setup(I):
+            if oracle is not None:
+                I.branch_oracle = oracle
+        return analyse(chk, q, lambda I, st, fi: dict(npts=sc("n", "int"), dt=pos_scalar("dt", DT).replace(sym=LinExpr("dt")), start=sc("s"),
+                                                      end=sc("e") if end is None else const_av(end), index=const_av(index)), setup=setup)
+    def not_sentinel(fr, node):
+        """branch oracle: nothing raises, and a generic end time is not the sentinel -1"""
+        if any(isinstance(x, ast.Raise) for x in node.body):
+            return False
+        t = node.test
+        if isinstance(t, ast.Compare) and len(t.ops) == 1 and any(ast.unparse(x).replace(" ", "") == "-1" for x in [t.left] + t.comparators) and \
+                isinstance(t.ops[0], (ast.Eq, ast.NotEq)):
+            return isinstance(t.ops[0], ast.NotEq)
+        return None
+    # times -> indices
+    r = run_(False, oracle=not_sentinel)
+    unmodelled_in(r, chk, "R-SECTION", c + "(index=False)")
+    its = r.ret.items if r.ret.kind == K_TUPLE and r.ret.items is not None and len(r.ret.items) == 2 else None
+    want_s = repr(opaque_sym("int", opaque_sym("div", LinExpr("s"), LinExpr("dt"))))
+    want_e = repr(opaque_sym("int", opaque_sym("div", LinExpr("e"), LinExpr("dt"))) + 1)
+    chk.ob("R-SECTION", c + "(index=False){start}", "start index = int(start / dt)", its is not None and its[0].sym is not None and repr(its[0].sym) == want_s,
+           derived="%r" % (its[0].sym if its else None,), loc=r.fi.loc())
+    chk.ob("R-SECTION", c + "(index=False){end}", "end index = int(end / dt) + 1 (the sample at `end` belongs to the section)",
+           its is not None and its[1].sym is not None and repr(its[1].sym) == want_e, derived="%r" % (its[1].sym if its else None,), loc=r.fi.loc())
+    # the sentinel end = -1 is not converted
+    r = run_(False, end=-1, oracle=lambda fr, node: False if any(isinstance(x, ast.Raise) for x in node.body) else None)
+    its = r.ret.items if r.ret.kind == K_TUPLE and r.ret.items is not None and len(r.ret.items) == 2 else None
+    chk.ob("R-SECTION", c + "(index=False, end=-1)", "end = -1 (to the end) is passed through", its is not None and its[1].has_const() and its[1].const == -1,
+           derived="%r" % ((its[1].const if its[1].has_const() else its[1].sym) if its else None,), loc=r.fi.loc())
+    # an ordinary end time is converted (a test against another sentinel value would send it to the raw branch)
+    r = run_(False, end=0, oracle=lambda fr, node: False if any(isinstance(x, ast.Raise) for x in node.body) else None)
+    its = r.ret.items if r.ret.kind == K_TUPLE and r.ret.items is not None and len(r.ret.items) == 2 else None
+    chk.ob("R-SECTION", c + "(index=False, end=0)", "end = 0 is a time like any other: end index int(0 / dt) + 1", its is not None and (
+           (its[1].has_const() and its[1].const == 1) or (its[1].sym is not None and repr(its[1].sym) == "int[div[0,dt]]+1")),
+           derived="%r" % ((its[1].const if its[1].has_const() else its[1].sym) if its else None,), loc=r.fi.loc())
+    # indices are taken as given
+    r = run_(True, oracle=lambda fr, node: False if any(isinstance(x, ast.Raise) for x in node.body) else None)
+    its = r.ret.items if r.ret.kind == K_TUPLE and r.ret.items is not None and len(r.ret.items) == 2 else None
+    chk.ob("R-SECTION", c + "(index=True)", "indices are returned unchanged", its is not None and its[0].sym == LinExpr("s") and its[1].sym == LinExpr("e"),
+           derived="%r" % ([i.sym for i in its] if its else None,), loc=r.fi.loc())
+    # the length guard
+    r = run_(True)
+    cm = [e for e in r.events("compare", q) if ("p:n" in e.left.tags) != ("p:n" in e.right.tags)]
+    cm = list({id(e.node): e for e in cm}.values())
+    ok = len(cm) == 1 and ((cm[0].op == "Gt" and "p:e" in cm[0].left.tags) or (cm[0].op == "Lt" and "p:e" in cm[0].right.tags))
+    chk.ob("R-SECTION", c + "{guard}", "only a section that ends past the record is rejected: end index > npts (a section reaching the last sample is fine)", ok,
+           derived="%s" % [(e.op, sorted(t for t in e.left.tags if t.startswith("p:")), sorted(t for t in e.right.tags if t.startswith("p:"))) for e in cm],
+           loc=cm[0].loc if cm else r.fi.loc(), stmt=cm[0].stmt if cm else None)
+    # the average is the mean of values[s:e]
+    q2 = "eqsig.fns.average.get_section_average"
+    c2 = "eqsig/fns/average.py:get_section_average"
+
+    def stub(I, fr, bound, node):
+        return AV(kind=K_TUPLE, items=(sc("S", "int"), sc("E", "int")))
+    r = analyse(chk, q2, lambda I, st, fi: dict(series=make_signal(I, st, P.cls(ACC), name="series")[1], start=sc("s"), end=sc("e")),
+                setup=lambda I: I.overrides.__setitem__(q, stub))
+    unmodelled_in(r, chk, "R-SECTION", c2)
+    sl = [e for e in r.events("subscript", q2) if e.index.kind == K_SLICE and e.index.items is not None and "attr:_values" in e.base.tags]
+    ok = len(sl) == 1 and sl[0].index.items[0] is not None and sl[0].index.items[1] is not None and sl[0].index.items[2] is None and \
+        sl[0].index.items[0].sym == LinExpr("S") and sl[0].index.items[1].sym == LinExpr("E")
+    chk.ob("R-SECTION", c2 + "{slice}", "the section is values[start index : end index] exactly", ok,
+           derived="%s" % [tuple(repr(x.sym) if x is not None else None for x in e.index.items) for e in sl], loc=sl[0].loc if sl else r.fi.loc(),
+           inconclusive=not sl)        # the section taken some other way (a slice object ...): not located
+    expect(chk, "R-SECTION", c2 + ".result", r.ret, kind=K_SCALAR, lin=[R], tags_has=["red:mean", "attr:_values"], loc=r.fi.loc())
+    ca = [e for e in r.events("call", q2) if e.callee == q]
+    if ca:
+        b = ca[0].bound
+        okb = all(("p:" + k) in b[p_].tags for p_, k in (("start", "s"), ("end", "e"))) and "attr:_npts" in b["npts"].tags and "attr:_dt" in b["dt"].tags
+        chk.ob("R-SECTION", c2 + "{arguments}", "time_indices receives (npts, dt, start, end, index) in that order", okb,
+               derived="%s" % {k: sorted(t for t in v.tags if t.startswith(("p:", "attr:"))) for k, v in b.items()}, loc=ca[0].loc)
+
+
+def lag_detail_rules(chk, fi, lp, inner, lagvars):
+    """The arithmetic of the lag search, each part checked where it can be located (names are discovered): the misfit is a sum of SQUARED
+    DIFFERENCES everywhere (reference and both directions), the search starts from lag 0, and a negative / positive lag is removed by
+    padding the slave at the start / end and dropping as many samples at the other end; lag 0 leaves the slave alone."""
+    c = "eqsig/multiple.py:Cluster.time_match"
+    in_inner = lambda n: any(n is x for il in inner for x in ast.walk(il))
+    # (a) misfit terms: every assignment to a name that is summed
+    summed = set()
+    for n in ast.walk(lp):
+        if isinstance(n, ast.Call) and ast.unparse(n.func) in ("sum", "np.sum", "numpy.sum") and n.args and isinstance(n.args[0], ast.Name):
+            summed.add(n.args[0].id)
+    for n in ast.walk(lp):
+        if isinstance(n, ast.Assign) and len(n.targets) == 1 and isinstance(n.targets[0], ast.Name) and n.targets[0].id in summed:
+            v = n.value
+            ok = isinstance(v, ast.BinOp) and isinstance(v.op, ast.Pow) and isinstance(v.right, ast.Constant) and v.right.value == 2 and \
+                isinstance(v.left, ast.BinOp) and isinstance(v.left.op, ast.Sub) and isinstance(v.left.left, ast.Subscript) and \
+                isinstance(v.left.right, ast.Subscript) and ast.unparse(v.left.left.value) != ast.unparse(v.left.right.value)
+            chk.ob("R-LAGSEARCH", c + "{misfit: %s}" % norm_stmt(n), "the misfit is the sum of squared differences of one window of each record", ok,
+                   derived=" ".join(ast.unparse(v).split()), loc=fi.loc(n), stmt=norm_stmt(n))
+    # (b) the search starts from lag 0
+    inits = [n for n in ast.walk(lp) if isinstance(n, ast.Assign) and len(n.targets) == 1 and isinstance(n.targets[0], ast.Name) and
+             n.targets[0].id in lagvars and isinstance(n.value, ast.Constant) and not in_inner(n)]
+    for n in inits:
+        chk.ob("R-LAGSEARCH", c + "{initial lag}", "the selected lag starts at 0 (no shift unless a candidate is strictly better)", n.value.value == 0,
+               derived="%s = %r" % (n.targets[0].id, n.value.value), loc=fi.loc(n), stmt=norm_stmt(n))
+    # (c) removal of the lag
+    chains = [n for n in ast.walk(lp) if isinstance(n, ast.If) and not in_inner(n) and isinstance(n.test, ast.Compare) and len(n.test.ops) == 1 and
+              isinstance(n.test.left, ast.Name) and n.test.left.id in lagvars and isinstance(n.test.comparators[0], ast.Constant) and
+              any(isinstance(x, ast.Assign) for x in n.body)]
+    inner_ifs = {id(x) for n in chains for o in n.orelse for x in ast.walk(o)}
+    # names bound once in the function stand for their expression (n_pad = abs(lag))
+    once = {}
+    for n in ast.walk(fi.node):
+        if isinstance(n, ast.Assign) and len(n.targets) == 1 and isinstance(n.targets[0], ast.Name):
+            once.setdefault(n.targets[0].id, []).append(n.value)
+
+    class _Sub(ast.NodeTransformer):
+        def visit_Name(self, n):
+            if isinstance(n.ctx, ast.Load) and n.id not in lagvars and len(once.get(n.id, [])) == 1 and \
+                    isinstance(once[n.id][0], (ast.Call, ast.UnaryOp)) and {x.id for x in ast.walk(once[n.id][0]) if isinstance(x, ast.Name)} & lagvars:
+                return copy.deepcopy(once[n.id][0])
+            return n
+
+    def holds(op, k, val):
+        return {"Lt": val < k, "Gt": val > k, "LtE": val <= k, "GtE": val >= k, "Eq": val == k, "NotEq": val != k}.get(op)
+    for top in [n for n in chains if id(n) not in inner_ifs]:
+        L = top.test.left.id
+        rows = []
+        node = top
+        while True:
+            rows.append((type(node.test.ops[0]).__name__, node.test.comparators[0].value, node.body))
+            if len(node.orelse) == 1 and isinstance(node.orelse[0], ast.If) and node.orelse[0] in chains:
+                node = node.orelse[0]
+            else:
+                rows.append(("else", None, node.orelse))
+                break
+        # a guard before the chain may already have sent lag 0 away (`if lag == 0: continue`)
+        zero_out = any(isinstance(n, ast.If) and not in_inner(n) and isinstance(n.test, ast.Compare) and len(n.test.ops) == 1 and
+                       isinstance(n.test.left, ast.Name) and n.test.left.id == L and isinstance(n.test.comparators[0], ast.Constant) and
+                       n.test.comparators[0].value == 0 and isinstance(n.test.ops[0], ast.Eq) and
+                       any(isinstance(x, (ast.Continue, ast.Return)) for x in n.body) for n in ast.walk(lp))
+        taken = {}
+        for sgn, val in (("negative", -1), ("zero", 0), ("positive", 1)):
+            for op, k, body in rows:
+                if op == "else" or holds(op, k, val):
+                    taken[sgn] = (op, k, body)
+                    break
+        shifts = lambda body: any(isinstance(x, ast.Assign) for x in body)
+        okb = taken.get("negative") and taken.get("positive") and shifts(taken["negative"][2]) and shifts(taken["positive"][2]) and \
+            taken["negative"][2] is not taken["positive"][2] and (zero_out or not shifts(taken.get("zero", (0, 0, []))[2]))
+        chk.ob("R-LAGSEARCH", c + "{removal: branches}", "a negative lag and a positive lag are each removed by their own branch, lag 0 is left alone",
+               bool(okb), derived="%s%s" % ([(op, k) for op, k, _ in rows], "; lag 0 leaves earlier" if zero_out else ""), loc=fi.loc(top),
+               stmt=norm_stmt(top.test))
+        rows = [(("Lt" if sgn == "negative" else "Gt"), 0, taken[sgn][2]) for sgn in ("negative", "positive") if sgn in taken and shifts(taken[sgn][2])
+                and (sgn == "negative" or taken[sgn][2] is not taken.get("negative", (0, 0, None))[2])]
+        for op, k, body in rows:
+            asg = [x for x in body if isinstance(x, ast.Assign) and len(x.targets) == 1]
+            if op not in ("Lt", "Gt") or len(asg) != 1:
+                continue
+            v = ast.fix_missing_locations(_Sub().visit(copy.deepcopy(asg[0].value)))
+            subs = [x for x in ast.walk(v) if isinstance(x, ast.Subscript) and isinstance(x.value, ast.Name)]
+            if not subs:
+                continue
+            S = subs[0].value.id
+            if op == "Lt":
+                forms = ["[{S}[0]] * abs({L}) + list({S}[:{L}])", "[{S}[0]] * -{L} + list({S}[:{L}])"]
+                what = "negative lag: |lag| copies of the first sample in front, the last |lag| samples dropped"
+            else:
+                forms = ["list({S}[{L}:]) + [{S}[-1]] * abs({L})", "list({S}[{L}:]) + [{S}[-1]] * {L}"]
+                what = "positive lag: the first lag samples dropped, lag copies of the last sample appended"
+            want = {ast.dump(ast.parse(f.format(S=S, L=L), mode="eval").body) for f in forms}
+            listy = isinstance(v, ast.BinOp) and any(isinstance(x, ast.Call) and ast.unparse(x.func) == "list" for x in ast.walk(v))
+            chk.ob("R-LAGSEARCH", c + "{removal: %s 0}" % ("lag <" if op == "Lt" else "lag >"), what, ast.dump(v) in want,
+                   derived=" ".join(ast.unparse(v).split()), loc=fi.loc(asg[0]), stmt=norm_stmt(asg[0]), inconclusive=not listy)
